@@ -19,11 +19,12 @@
 (* operands once, load, rhs, op, store).  Not observed: __hash__/__eq__      *)
 (* calls made by dict/set displays.                                          *)
 (* Cases are states: (ast, typing, outcome vector) with the expected log.    *)
-EXTENDS Integers, Sequences, FiniteSets, TLC, Json
+EXTENDS Integers, Sequences, FiniteSets, TLC, Json, IOUtils
 
 CONSTANTS MaxLeaves,  \* bound on the number of leaves of a case
           MaxLeaves2, \* bound on the number of leaves of two-level expressions
-          Mod, Rem,   \* sub-sampling of the two-level expressions and statements: structural hash % Mod = Rem
+          Mod,        \* sub-sampling of the two-level expressions and statements: structural hash % Mod = Rem
+                      \* (Rem = IOEnv.C20_REM, set by the harness from the seed)
           Typings,    \* subset of {"O", "I", "M"}
           Tops,       \* subset of {"ret1", "ret2", "assign", "aug", "unpack"}
           Dump
@@ -94,13 +95,19 @@ Build(apool, npool, m, k) ==
 IdxA == Index(Atoms, MaxLeaves)
 E1 == Build(IdxA, IdxA, MaxLeaves, 0)
 E01 == Atoms \cup E1
-\* two-level expressions: (a) one nested child, any one-level expression; (b) two nested children from a core family
-IdxE1 == Index(E1, MaxLeaves2)
+\* two-level expressions: (a) one nested child from the core family in any slot, the other children atoms;
+\* (b) two nested children from a small family (both need temporaries)
 Core == {Nd("neg", <<VLeaf>>), Nd("not", <<VLeaf>>), Nd("getitem", <<CLeaf, VLeaf>>), Nd("getitem", <<Nm("P"), VLeaf>>),
          Nd("getattr", <<CLeaf>>), CallN(<<"p">>, <<CLeaf, VLeaf>>), CallN(<<>>, <<CLeaf>>), Nd("in", <<VLeaf, Nm("P")>>),
-         Nd("add", <<VLeaf, VLeaf>>), Nd("lt", <<VLeaf, VLeaf>>), Nd("and", <<VLeaf, VLeaf>>), Nd("tuple", <<VLeaf, VLeaf>>)}
-IdxCore == Index(Core, MaxLeaves)
-E2 == (Build(IdxA, IdxE1, MaxLeaves2, 1) \cup Build(IdxA, IdxCore, MaxLeaves, 2)) \ E1
+         Nd("add", <<VLeaf, VLeaf>>), Nd("lt", <<VLeaf, VLeaf>>), Nd("and", <<VLeaf, VLeaf>>), Nd("or", <<VLeaf, VLeaf>>),
+         Nd("tuple", <<VLeaf, VLeaf>>), Nd("list", <<VLeaf, VLeaf>>), Nd("fstr", <<VLeaf, VLeaf>>),
+         CallN(<<"p", "s">>, <<Nm("P"), VLeaf, SLeaf>>), CallN(<<"k", "d">>, <<Nm("P"), VLeaf, DLeaf>>),
+         Nd("cond", <<VLeaf, VLeaf, VLeaf>>), Nd("lt3", <<VLeaf, VLeaf, VLeaf>>), Nd("slice", <<Nm("P"), VLeaf, VLeaf>>)}
+Core2 == {Nd("not", <<VLeaf>>), Nd("getitem", <<Nm("P"), VLeaf>>), CallN(<<"p">>, <<CLeaf, VLeaf>>), Nd("add", <<VLeaf, VLeaf>>),
+          Nd("in", <<VLeaf, Nm("P")>>)}
+IdxCore == Index(Core, MaxLeaves2)
+IdxCore2 == Index(Core2, MaxLeaves2)
+E2 == (Build(IdxA, IdxCore, MaxLeaves2, 1) \cup Build(IdxA, IdxCore2, MaxLeaves2, 2)) \ E1
 
 (* structural hash for sub-sampling *)
 TNames == <<"L", "N", "call", "getitem", "slice", "getattr", "add", "neg", "lt", "lt3", "in", "notin", "and", "or", "not", "cond",
@@ -111,10 +118,13 @@ RECURSIVE H(_), HS(_, _), HSig(_, _)
 H(e) == (CodeOf(TNames, e.t) * 37 + CodeOf(KNames, e.k) * 101 + HSig(e.sig, Len(e.sig)) + HS(e.a, Len(e.a))) % 1009
 HS(s, n) == IF n = 0 THEN 0 ELSE ((2 * n + 3) * H(s[n]) + 7 * HS(s, n - 1)) % 1009
 HSig(s, n) == IF n = 0 THEN 0 ELSE (n * CodeOf(KNames, s[n]) * 11 + HSig(s, n - 1)) % 1009
+Rem == IF "C20_REM" \in DOMAIN IOEnv THEN atoi(IOEnv.C20_REM) % Mod ELSE 0
 Sel(e) == H(e) % Mod = Rem
 
 \* operand pools for statements
-Opd == {e \in E01 : NL(e) <= 2 /\ IsVal(e)}
+SVal == {VLeaf, Nd("not", <<VLeaf>>), Nd("neg", <<VLeaf>>), Nd("add", <<VLeaf, VLeaf>>), Nd("lt", <<VLeaf, VLeaf>>),
+         Nd("getitem", <<CLeaf, VLeaf>>), CallN(<<"p">>, <<CLeaf, VLeaf>>), Nd("tuple", <<VLeaf, VLeaf>>),
+         Nd("and", <<VLeaf, VLeaf>>), Nd("in", <<VLeaf, Nm("P")>>), Nd("fstr", <<VLeaf, VLeaf>>), Nd("getattr", <<CLeaf>>)}
 TIdx == {VLeaf, Nd("not", <<VLeaf>>), Nd("in", <<VLeaf, Nm("P")>>), Nd("add", <<VLeaf, VLeaf>>), Nd("lt", <<VLeaf, VLeaf>>),
          Nd("getitem", <<CLeaf, VLeaf>>), CallN(<<"p">>, <<CLeaf, VLeaf>>), Nd("tuple", <<VLeaf, VLeaf>>), Nd("neg", <<VLeaf>>)}
 TCont == {CLeaf, Nm("P"), Nm("Q"), Nd("getitem", <<CLeaf, VLeaf>>), Nd("getattr", <<CLeaf>>), CallN(<<>>, <<CLeaf>>)}
@@ -122,23 +132,26 @@ TargetsM == {t \in {Nd("tN", <<>>)} \cup {Nd("tsub", <<c, i>>) : c \in TCont, i 
                    {Nd("tslice", <<c, i, j>>) : c \in {CLeaf, Nm("P")}, i \in {VLeaf, Nd("not", <<VLeaf>>)}, j \in {VLeaf, Nd("lt", <<VLeaf, VLeaf>>)}}
              : NL(t) <= MaxLeaves - 1}
 Targets1 == {t \in TargetsM : NL(t) <= 1}
-RElt == {VLeaf, Nd("getitem", <<CLeaf, VLeaf>>), Nd("getitem", <<Nm("P"), VLeaf>>), Nd("getitem", <<Nm("Q"), VLeaf>>),
-         Nd("not", <<VLeaf>>), Nd("neg", <<VLeaf>>)}
+Targets0 == {Nd("tN", <<>>), Nd("tsub", <<Nm("P"), VLeaf>>), Nd("tsub", <<Nm("Q"), VLeaf>>), Nd("tsub", <<CLeaf, VLeaf>>),
+             Nd("tattr", <<CLeaf>>), Nd("tattr", <<Nm("P")>>), Nd("tsub", <<Nm("P"), Nd("not", <<VLeaf>>)>>),
+             Nd("tslice", <<Nm("Q"), VLeaf, VLeaf>>)}
+RElt == {VLeaf, Nd("getitem", <<Nm("P"), VLeaf>>), Nd("getitem", <<Nm("Q"), VLeaf>>), Nd("not", <<VLeaf>>)}
 UnpackRhs == {SLeaf, CLeaf} \cup {Nd(t, <<x, y>>) : t \in {"tuple", "list"}, x \in RElt, y \in RElt}
 
 Stmts ==
   (IF "ret1" \in Tops THEN {Nd("ret", <<e>>) : e \in {x \in E1 : IsVal(x)}} ELSE {}) \cup
-  (IF "ret2" \in Tops THEN {Nd("ret", <<e>>) : e \in {x \in E2 : Sel(x)}} ELSE {}) \cup
+  (IF "ret2" \in Tops THEN {Nd("ret", <<e>>) : e \in E2} ELSE {}) \cup
   (IF "assign" \in Tops THEN
-      {Nd("assign", <<t1, v>>) : t1 \in TargetsM \ {Nd("tN", <<>>)}, v \in Opd} \cup
-      {Nd("assign", <<t1, t2, v>>) : t1 \in TargetsM, t2 \in TargetsM, v \in {VLeaf, Nd("not", <<VLeaf>>)}} \cup
-      {Nd("assign", <<t1, t2, t3, v>>) : t1 \in Targets1, t2 \in Targets1, t3 \in Targets1, v \in {VLeaf}}
+      {Nd("assign", <<t1, v>>) : t1 \in TargetsM \ {Nd("tN", <<>>)}, v \in SVal} \cup
+      {Nd("assign", <<t1, t2, v>>) : t1 \in TargetsM, t2 \in Targets1, v \in {VLeaf, Nd("not", <<VLeaf>>)}} \cup
+      {Nd("assign", <<t1, t2, v>>) : t1 \in Targets1, t2 \in TargetsM, v \in {VLeaf}} \cup
+      {Nd("assign", <<t1, t2, t3, v>>) : t1 \in Targets0, t2 \in Targets0, t3 \in Targets0, v \in {VLeaf}}
    ELSE {}) \cup
-  (IF "aug" \in Tops THEN {Nd("aug", <<t1, v>>) : t1 \in (TargetsM \ {Nd("tN", <<>>)}) \cup {Nm("P")}, v \in Opd} ELSE {}) \cup
-  (IF "unpack" \in Tops THEN {Nd("unpack", <<t1, t2, r>>) : t1 \in Targets1, t2 \in Targets1, r \in UnpackRhs} ELSE {})
+  (IF "aug" \in Tops THEN {Nd("aug", <<t1, v>>) : t1 \in (TargetsM \ {Nd("tN", <<>>)}) \cup {Nm("P")}, v \in SVal} ELSE {}) \cup
+  (IF "unpack" \in Tops THEN {Nd("unpack", <<t1, t2, r>>) : t1 \in Targets0, t2 \in Targets0, r \in UnpackRhs} ELSE {})
 
-
-Cases == {s \in Stmts : NL(s) >= 1 /\ NL(s) <= MaxLeaves /\ (s.t = "ret" \/ Sel(s))}
+\* one-level expressions are always all included; the other families are sub-sampled
+Cases == {s \in Stmts : NL(s) >= 1 /\ NL(s) <= MaxLeaves /\ ((s.t = "ret" /\ s.a[1] \in E1) \/ Sel(s))}
 
 ---------------------------------------------------------------------------
 (* leaf paths: the root has path 0, child j of the node at path p has path 8p+j *)
@@ -322,36 +335,46 @@ Exec(e, env) ==    \* e is the root (path 0)
                            Log(h.st, vs[1].r \o (IF tg.t = "tattr" THEN ".setattr(" ELSE ".setitem(") \o key \o ", " \o h.v.r \o ")")
 
 ---------------------------------------------------------------------------
-VARIABLES phase, ast, typ, outs, log, exc
-vars == <<phase, ast, typ, outs, log, exc>>
+VARIABLES phase, ast, lp, typ, outs, log, exc
+vars == <<phase, ast, lp, typ, outs, log, exc>>
+\* lp: the leaf paths of ast in source order (constant per AST; kept in the state so that it is computed once)
 
-LP(a) == Paths(a, 0)
-OutFn(a, o) == [p \in {LP(a)[i] : i \in 1..Len(LP(a))} |-> o[CHOOSE i \in 1..Len(LP(a)) : LP(a)[i] = p]]
-Run(a, ty, o) == Exec(a, [ty |-> ty, out |-> OutFn(a, o)])
+OutFn(l, o) == [p \in {l[i] : i \in 1..Len(l)} |-> o[CHOOSE i \in 1..Len(l) : l[i] = p]]
+Run(a, l, ty, o) == Exec(a, [ty |-> ty, out |-> OutFn(l, o)])
 LeafTag(p) == "L" \o ToString(p)
 Logged(lg, p) == \E i \in 1..Len(lg) : lg[i] = LeafTag(p)
+PosIn(lg, p) == CHOOSE i \in 1..Len(lg) : lg[i] = LeafTag(p)
 \* canonical outcome vectors: leaves that are not evaluated have outcome T; tuple/dict leaves have no falsy form
-Canon(a, o, lg) == \A i \in 1..Len(o) : /\ (~Logged(lg, LP(a)[i]) => o[i] = "T")
-                                         /\ (NodeAt(a, LP(a)[i]).k \in {"s", "d"} => o[i] # "F")
+Canon(a, l, o, lg) == \A i \in 1..Len(o) : /\ (~Logged(lg, l[i]) => o[i] = "T")
+                                            /\ (NodeAt(a, l[i]).k \in {"s", "d"} => o[i] # "F")
 
-(* root -> one state per AST -> one state per (typing, canonical outcome vector) carrying the expected log *)
-Init == /\ phase = "root" /\ ast = Nm("P") /\ typ = "" /\ outs = <<>> /\ log = <<>> /\ exc = ""
+(* root -> one state per AST -> per typing the all-truthy case -> outcome changes, one leaf at a time *)
+Init == /\ phase = "root" /\ ast = Nm("P") /\ lp = <<>> /\ typ = "" /\ outs = <<>> /\ log = <<>> /\ exc = ""
 PickAst == /\ phase = "root" /\ phase' = "ast"
-           /\ ast' \in Cases
+           /\ \E a \in Cases : ast' = a /\ lp' = Paths(a, 0)
            /\ UNCHANGED <<typ, outs, log, exc>>
-PickCase == /\ phase = "ast" /\ phase' = "case"
-            /\ \E t \in Typings, o \in [1..Len(LP(ast)) -> {"T", "F", "R"}] :
-                  LET r == Run(ast, t, o) IN
-                  /\ Canon(ast, o, r.log)
-                  /\ typ' = t /\ outs' = o /\ log' = r.log /\ exc' = r.exc
-            /\ UNCHANGED ast
-Next == PickAst \/ PickCase
+AllTrue == /\ phase = "ast" /\ phase' = "case"
+           /\ \E t \in Typings :
+                 LET o == [i \in 1..Len(lp) |-> "T"]  r == Run(ast, lp, t, o) IN
+                 typ' = t /\ outs' = o /\ log' = r.log /\ exc' = r.exc
+           /\ UNCHANGED <<ast, lp>>
+\* change the outcome of one evaluated leaf that comes, in evaluation order, after every leaf whose outcome
+\* was changed before: every canonical outcome vector is reached exactly once, with one evaluation each
+Flip == /\ phase = "case" /\ exc = ""
+        /\ \E i \in 1..Len(outs) :
+              /\ outs[i] = "T" /\ Logged(log, lp[i])
+              /\ \A j \in 1..Len(outs) : outs[j] # "T" => PosIn(log, lp[j]) < PosIn(log, lp[i])
+              /\ \E oc \in (IF NodeAt(ast, lp[i]).k \in {"s", "d"} THEN {"R"} ELSE {"F", "R"}) :
+                    LET o == [outs EXCEPT ![i] = oc]  r == Run(ast, lp, typ, o) IN
+                    outs' = o /\ log' = r.log /\ exc' = r.exc
+        /\ UNCHANGED <<phase, ast, lp, typ>>
+Next == PickAst \/ AllTrue \/ Flip
 Spec == Init /\ [][Next]_vars
 
 ---------------------------------------------------------------------------
 (* the property on the model *)
-Pos(p) == CHOOSE i \in 1..Len(log) : log[i] = LeafTag(p)
-LPs == LP(ast)
+Pos(p) == PosIn(log, p)
+LPs == lp
 EvaluatedIdx == {i \in 1..Len(LPs) : Logged(log, LPs[i])}
 \* every leaf is evaluated at most once
 AtMostOnceB == \A i \in 1..Len(LPs) : Cardinality({j \in 1..Len(log) : log[j] = LeafTag(LPs[i])}) <= 1
@@ -384,6 +407,8 @@ AugOrderB == ast.t = "aug" => \A i, j \in EvaluatedIdx : i < j => Pos(LPs[i]) < 
 \* a store is the last thing an assignment does for a target: the number of store events
 Stores == Cardinality({i \in 1..Len(log) : \E k \in 1..Len(log[i]) : SubSeq(log[i], k, k + 4) = ".seta" \/ SubSeq(log[i], k, k + 4) = ".seti"})
 
+CanonB == Canon(ast, lp, outs, log)
+CanonInv     == phase = "case" => CanonB
 AtMostOnce   == phase = "case" => AtMostOnceB
 StopsAtRaise == phase = "case" => StopsAtRaiseB
 AllEvaluated == phase = "case" => AllEvaluatedB
